@@ -480,6 +480,39 @@ def gen_scenario(rng, typ, r, c, F, form=None, rich=True, vector_prob=0.4, extra
         else:
             st.srows = rng.randint(1, p)
         stds.append(st)
+    # sparse, non-reciprocal multi-port standard with explicit zeros (random directed graph)
+    if extras and p >= 3 and rng.random() < 0.8:
+        k = rng.randint(3, p)
+        ports = rng.sample(range(1, p + 1), k)
+
+        def sparse():
+            m = [[0j] * k for _ in range(k)]
+            for a in range(k):
+                for b in range(k):
+                    if a == b:
+                        m[a][b] = small(rng, 1.6)
+                    elif rng.random() < 0.3:
+                        m[a][b] = (0.75 + rng.randint(0, 8) / 32.0) * unit(rng)
+            return m
+        pat = sparse()
+        if F > 1 and rng.random() < vector_prob:
+            # same zero pattern at every frequency
+            S = [[[pat[a][b] * (1 + 0.125 * f) for b in range(k)] for a in range(k)] for f in range(F)]
+            scal = False
+        else:
+            S, scal = const_over_f(F, pat), True
+        st = Std("mm", ports, S, scalar=scal)
+        st.first_of = []
+        stds.append(st)
+    # leakage determined only through a standard whose off-diagonal cells are explicit VNACAL_ZEROs
+    leak_by_zeros = has_leak(typ) and p >= 2 and rng.random() < 0.35
+    last = None
+    if leak_by_zeros:
+        g = [small(rng, 2.0) for _ in range(p)]
+        S = const_over_f(F, [[g[a] if a == b else 0j for b in range(p)] for a in range(p)])
+        last = Std("mm", list(range(1, p + 1)), S, mapflag=rng.choice([0, 1]), scalar=True)
+        last.first_of = []
+        last.force_full = True
     # full NULL-map mapped matrix for the non-16 types too (identity map implied)
     if extras and not is_16(typ) and rng.random() < 0.4:
         S, scal = mk_S(lambda: rand_full_s(rng, p, 1.6))
@@ -498,13 +531,20 @@ def gen_scenario(rng, typ, r, c, F, form=None, rich=True, vector_prob=0.4, extra
     scen_form = form if form is not None else rng.choice(["m", "ab", "mixed"])
     for st in stds:
         rows, cols = m_shape_options(typ, r, c, st)
-        if st.first_of and has_leak(typ):
+        if st.first_of and has_leak(typ) and not leak_by_zeros:
             st.brows, st.bcols = r, c
+        elif leak_by_zeros and len(st.ports) <= 2 and st.fn in ("sr", "dr", "mm") and len(rows) > 1 and len(cols) > 1:
+            st.brows, st.bcols = rows[-1], cols[-1]       # abbreviated: no leakage samples from the reflects
         else:
             st.brows, st.bcols = rng.choice(rows), rng.choice(cols)
         st.form = scen_form if scen_form != "mixed" else rng.choice(["m", "ab"])
         finish_std(rng, sc, st, fill)
     rng.shuffle(stds)
+    if last is not None:
+        last.brows, last.bcols = r, c
+        last.form = scen_form if scen_form != "mixed" else rng.choice(["m", "ab"])
+        finish_std(rng, sc, last, fill)
+        stds.append(last)
     sc.stds = stds
     sc.fill = fill
     sc.dut = [rand_full_s(rng, p, 2.4) for _ in range(F)]
@@ -558,11 +598,16 @@ def cx(z):
 
 
 class Script(object):
-    def __init__(self, noise=None):
+    def __init__(self, noise=None, pool=None, extend=None):
         self.lines = []
         self.npar = 0
         self.cache = {}
         self.noise = noise      # optional random.Random: measured values get a 1e-12 relative perturbation
+        self.pool = pool        # optional random.Random: parameters are created up front, in shuffled order,
+                                # among unused ones, such that the first one referenced has index 16
+        self.extend = extend    # optional random.Random: vector parameters get extra knots above the
+                                # calibration band and are evaluated there before the solve
+        self.vector_queries = []
 
     def param(self, values, freqs, allow_predef=True):
         """token for a parameter with the given per-frequency values"""
@@ -586,9 +631,23 @@ class Script(object):
             return "p%d" % pid
         pid = self.npar
         self.npar += 1
+        freqs = list(freqs)
+        values = list(values)
+        if self.extend is not None:
+            top = freqs[-1]
+            extra = [top * (1.25 + 0.5 * i) for i in range(6)]
+            freqs += extra
+            values += [small(self.extend, 3.0) for _ in extra]
+            # an off-grid frequency several knots above the calibration band
+            self.vector_queries.append((pid, extra[-2] + 0.37 * (extra[-1] - extra[-2])))
         self.lines.append("vector %d %d %s %s" % (pid, len(freqs), " ".join(hx(f) for f in freqs),
                                                   " ".join(cx(v) for v in values)))
         return "p%d" % pid
+
+    def query_vectors(self):
+        """vnacal_get_parameter_value of every vector parameter made so far, above the band"""
+        for pid, f in self.vector_queries:
+            self.lines.append("pvalue %d %s" % (pid, hx(f)))
 
     def new(self, slot, sc):
         self.lines.append("new %d %d %d %d %d %s" % (slot, TYPE_CODE[sc.typ], sc.r, sc.c, sc.F,
@@ -651,7 +710,36 @@ class Script(object):
                 name, F, " ".join(hx(f) for f in sc.freqs), n, n, self.cells(mats, True)))
 
     def text(self):
-        return "\n".join(self.lines) + "\n"
+        if self.pool is None:
+            return "\n".join(self.lines) + "\n"
+        rng = self.pool
+        par = [l for l in self.lines if l.startswith("scalar ") or l.startswith("vector ")]
+        rest = [l for l in self.lines if not (l.startswith("scalar ") or l.startswith("vector "))]
+        first = None
+        for l in rest:
+            if l.startswith("add "):
+                toks = [t for t in l.split() if len(t) > 1 and t[0] == "p" and t[1:].isdigit()]
+                if toks:
+                    first = int(toks[0][1:])
+                break
+        nd = [self.npar]
+
+        def dummy():
+            nd[0] += 1
+            return "scalar %d %s %s" % (nd[0] - 1, hx(2.0 + rng.random()), hx(rng.random()))
+        head = []
+        body = list(par)
+        if first is not None:
+            fl = [l for l in par if int(l.split()[1]) == first]
+            body = [l for l in par if int(l.split()[1]) != first]
+            head = [dummy() for _ in range(13)] + fl       # user handles start at 3: this one is 16
+        rng.shuffle(body)
+        out = []
+        for l in body:
+            out.append(l)
+            if rng.random() < 0.3:
+                out.append(dummy())
+        return "\n".join(head + out + rest) + "\n"
 
 
 def apply_accepts(r, c):
@@ -675,10 +763,13 @@ def dut_measurement(sc, f):
 def scenario_script(sc, slot=0, script=None, do_apply=True, dump=False, perturb=None):
     s = script or Script()
     s.new(slot, sc)
+    if getattr(sc, "merror", None):
+        s.lines.append("merror %d %s %s" % (slot, hx(sc.merror[0]), hx(sc.merror[1])))
     for st in sc.stds:
         s.add(slot, sc, st)
     if dump:
         s.lines.append("dump %d" % slot)
+    s.query_vectors()
     s.lines.append("solve %d" % slot)
     s.lines.append("addcal %d %s" % (slot, sc.name))
     s.lines.append("terms %s" % sc.name)
@@ -849,19 +940,38 @@ def outputs_differ(recs1, recs2, tol=1e-9):
 
 
 # ----------------------------------------------------------------------------- structural correspondence
-def gen_struct_case(rng, typ, r, c, nadds, npar=4, allow_bad=True):
+def gen_struct_case(rng, typ, r, c, nadds, npar=None, allow_bad=True):
     """Random sequence of vnacal_new_add_* calls (valid and invalid) for the structural tie.
-    Returns a dict with the C script lines (without `new`) and the model lines."""
+    Many distinct parameters (10..40, so that the per-calibration parameter hash is resized and indices
+    collide modulo 16 / 32), sparse non-reciprocal S patterns with explicit zeros, permuted port maps.
+    Returns the list of calls and the token -> handle map."""
     p = max(r, c)
-    tokens = ["Z", "O", "S"] + ["p%d" % i for i in range(npar)]
+    if npar is None:
+        npar = rng.randint(10, 40)
+    user = ["p%d" % i for i in range(npar)]
     handle = {"Z": 0, "O": 1, "S": 2}
     for i in range(npar):
         handle["p%d" % i] = 3 + i
+    # parameters whose index is a multiple of 16 share a hash bucket with VNACAL_ZERO after a resize
+    hot = [t for t in user if handle[t] % 16 == 0]
     sixteen = is_16(typ)
+    sparse_case = rng.random() < 0.5
+
+    def token(offdiag=False):
+        x = rng.random()
+        if offdiag and sparse_case and x < 0.55:
+            return "Z"
+        if x < 0.12:
+            return "Z"
+        if x < 0.2:
+            return rng.choice(["O", "S"])
+        if hot and x < 0.3:
+            return rng.choice(hot)
+        return rng.choice(user)
     adds = []
-    for _ in range(nadds):
-        fn = rng.choice(["sr", "dr", "th", "ln", "mm", "mm"])
-        bad = allow_bad and rng.random() < 0.25
+    for n_ in range(nadds):
+        fn = rng.choice(["sr", "dr", "th", "ln", "mm", "mm", "mm"])
+        bad = allow_bad and rng.random() < 0.2
         if fn == "sr":
             k, sr, sc, diag = 1, 1, 1, 1
         elif fn == "dr":
@@ -870,9 +980,11 @@ def gen_struct_case(rng, typ, r, c, nadds, npar=4, allow_bad=True):
             k, sr, sc, diag = 2, 2, 2, 0
         else:
             k = rng.randint(1, p)
+            if p >= 3 and rng.random() < 0.5:
+                k = rng.randint(3, p)
             sr = sc = k
             diag = 0
-            if sixteen and rng.random() < 0.4:
+            if rng.random() < (0.4 if sixteen else 0.08):
                 if is_t(typ):
                     sc = rng.randint(1, k)
                 else:
@@ -880,53 +992,47 @@ def gen_struct_case(rng, typ, r, c, nadds, npar=4, allow_bad=True):
             if bad and rng.random() < 0.3:
                 sr = rng.randint(0, p + 1)
                 sc = rng.randint(0, p + 1)
-                if not sixteen:
-                    sc = sr         # rectangular S on a diagonal type runs into an assert (see design notes)
                 k = max(sr, sc)
-        if k > p and fn != "mm":
-            # the entry point needs more ports than the VNA has: still a legal call, must be refused
-            pass
         ports = rng.sample(range(1, p + 1), min(k, p))
         while len(ports) < k:
             ports.append(rng.randint(1, p))          # duplicates -> refused
         if bad and rng.random() < 0.4 and k > 0:
             ports[rng.randrange(k)] = rng.choice([0, -1, p + 1, ports[0]])
         mapflag = 1
-        if fn == "mm" and rng.random() < 0.3:
+        if fn == "mm" and rng.random() < 0.25:
             mapflag = 0
             if sr == p and sc == p:
                 ports = list(range(1, p + 1))
-        # b dims
         if typ == "T16":
             minr, minc = sr, c
         elif typ == "U16":
             minr, minc = r, sc
         else:
             minr, minc = max(sr, sc), max(sr, sc)
-        br = rng.choice([r, minr])
-        bc = rng.choice([c, minc])
+        br = rng.choice([r, minr, minr])
+        bc = rng.choice([c, minc, minc])
         if bad and rng.random() < 0.3:
             br = rng.randint(0, p + 1)
         if bad and rng.random() < 0.3:
             bc = rng.randint(0, p + 1)
-        ab = rng.random() < 0.4
+        ab = rng.random() < 0.35
         ar = 1 if is_col(typ) else bc
         ac = bc
         if ab and bad and rng.random() < 0.3:
             ar = rng.randint(0, p + 1)
-        ns = (min(sr, sc) if diag else sr * sc) if fn in ("sr", "dr", "mm") or fn == "ln" else 0
         if fn == "th":
             toks = ["Z", "O", "O", "Z"]
         elif fn in ("sr", "dr"):
-            toks = [rng.choice(tokens) for _ in range(k)]
+            toks = [token() for _ in range(k)]
         elif fn == "ln":
-            toks = [rng.choice(tokens) for _ in range(4)]
+            toks = [token(), token(True), token(True), token()]
         else:
-            toks = [rng.choice(tokens) for _ in range(max(sr, 0) * max(sc, 0))]
-            # a diagonal type needs the cells of connected ports: leave them all non-NULL
+            toks = [token(a_ != b_) for a_ in range(max(sr, 0)) for b_ in range(max(sc, 0))]
+        if n_ == 0 and hot and rng.random() < 0.6 and toks and fn != "th":
+            toks[0] = hot[0]                 # referenced before the first resize of the hash
         adds.append({"fn": fn, "sr": sr, "sc": sc, "diag": diag, "ports": ports, "mapflag": mapflag,
                      "br": br, "bc": bc, "ab": ab, "ar": ar, "ac": ac, "toks": toks})
-    return adds, handle
+    return adds, handle, npar
 
 
 def struct_c_line(typ, a, F=1):
